@@ -227,6 +227,15 @@ pub fn run_cond(ctx: &RunCtx) -> Outcome {
     if !stage(ctx, &mut o, &p, "conditional contexts x fillers depth 2", &prods, &ptexts) {
         return o;
     }
+    // conditionals inside look-behinds (a group test has no length of its own)
+    {
+        let lb: Vec<_> = super::c13::lookbehind_products().into_iter().filter(|x| x.has_cond()).collect();
+        let mut t = gen::texts(&['a', 'b', 'c'], 4);
+        t.extend(["aab", "abc", "bbc", "abbc"].iter().map(|s| s.to_string()));
+        if !stage(ctx, &mut o, &p, "conditionals inside look-behinds", &lb, &t) {
+            return o;
+        }
+    }
     // conditions on groups that are not open or do not exist: rejected at compile time today; if a
     // pattern is accepted, the condition must be false
     {
